@@ -1271,6 +1271,9 @@ func areaSweeper(r *Rng, n int, dir string) (*AreaOut, error) {
 	if err := sweeperInsertsAhead(out); err != nil {
 		return nil, err
 	}
+	if err := sweeperAfterFailedPass(out); err != nil {
+		return nil, err
+	}
 	out.Cases = len(cases)
 	out.Distinct = len(nontriv)
 	for i := 0; i < 3 && i < len(cases); i++ {
